@@ -127,6 +127,12 @@ def gen_tree(rng):
             t.setdefault("grp", {})[name] = ch
         else:
             t[name] = ch
+    if rng.random() < 0.2:
+        # a directory that is NOT a channel but is named like a timestamped subdirectory (an experiment directory named
+        # by its start time), holding a channel: the listing must go through it
+        kind = rng.choice(["rf", "md", "both"])
+        t[subdir_name(BASE - HOUR * rng.choice([0, 1, 30]))] = {rng.choice(["ch9", "x"]): gen_channel(rng, kind)}
+        return t
     if rng.random() < 0.15:
         t["drf_properties.h5"] = None                         # the top directory itself a channel
         t[subdir_name(BASE)] = {"rf@%d.000.h5" % BASE: None}
